@@ -592,6 +592,12 @@ func TestDvGen(t *testing.T) {
 			if i >= limit {
 				return dvAct{}, false
 			}
+			if burst && i == ln/2-2 { // the peer knows a non-empty set before the burst empties it (snapshot of an empty set)
+				return dvAct{Ev: "announce", Q: 1, P: 1}, true
+			}
+			if burst && i == ln/2-1 {
+				return dvAct{Ev: "sync", R: 2, Q: 1}, true
+			}
 			if burst && i >= ln/2 && i < ln/2+130 {
 				if i == ln/2+129 {
 					return dvAct{Ev: "sync", R: 2, Q: 1}, true
